@@ -139,6 +139,36 @@ type instr struct {
 	ins  []insertion
 	rep  []replacement
 	st   *YieldStats
+	// curFunc is the innermost function (declaration or literal) around the statements
+	// being instrumented: variables declared outside a literal are captured by it.
+	curFunc ast.Node
+}
+
+// notGoroutineSafe lists library types whose methods must not be called concurrently on
+// one value (their documentation says so): a call on a shared value is a write to it.
+var notGoroutineSafe = map[string]bool{
+	"math/rand.Rand": true, "math/rand/v2.Rand": true, "bytes.Buffer": true, "strings.Builder": true,
+	"bufio.Writer": true, "bufio.Reader": true, "bufio.ReadWriter": true,
+}
+
+func namedKey(t types.Type) string {
+	if p, ok := t.(*types.Pointer); ok {
+		t = p.Elem()
+	}
+	if n, ok := t.(*types.Named); ok && n.Obj().Pkg() != nil {
+		return n.Obj().Pkg().Path() + "." + n.Obj().Name()
+	}
+	return ""
+}
+
+// captured reports whether obj is a variable of an enclosing function used inside the
+// function literal being instrumented.
+func (x *instr) captured(obj *types.Var) bool {
+	fl, ok := x.curFunc.(*ast.FuncLit)
+	if !ok || obj.IsField() || obj.Parent() == nil || obj.Parent() == x.pkg.Types.Scope() || obj.Parent() == types.Universe {
+		return false
+	}
+	return obj.Pos() < fl.Pos() || obj.Pos() > fl.End()
 }
 
 func (x *instr) off(p token.Pos) int { return x.fset.Position(p).Offset }
@@ -211,6 +241,26 @@ func (x *instr) accesses(stmt ast.Stmt) []string {
 		case *ast.CaseClause, *ast.CommClause:
 			return false
 		case *ast.CallExpr:
+			if sel, ok := v.Fun.(*ast.SelectorExpr); ok && simple(sel.X) {
+				if tv, ok := info.Types[sel.X]; ok && notGoroutineSafe[namedKey(tv.Type)] {
+					shared := false
+					switch r := sel.X.(type) {
+					case *ast.Ident:
+						if obj, ok := info.Uses[r].(*types.Var); ok {
+							shared = obj.Parent() == x.pkg.Types.Scope() || x.captured(obj)
+						}
+					case *ast.SelectorExpr:
+						shared = true // a field of some struct: shared whenever the struct is
+					}
+					if shared {
+						addr := "&" + x.text(sel.X)
+						if _, isPtr := tv.Type.(*types.Pointer); isPtr {
+							addr = x.text(sel.X)
+						}
+						add(fmt.Sprintf("simrt.Acc(%q, unsafe.Pointer(%s), true)", x.site(v.Pos()), addr))
+					}
+				}
+			}
 			// delete(m, k) is a map write
 			if id, ok := v.Fun.(*ast.Ident); ok && id.Name == "delete" && len(v.Args) == 2 {
 				if tv, ok := info.Types[v.Args[0]]; ok {
@@ -238,7 +288,7 @@ func (x *instr) accesses(stmt ast.Stmt) []string {
 			if sel != nil && sel.Kind() == types.FieldVal && simple(v.X) {
 				recv := sel.Recv()
 				if p, ok := recv.(*types.Pointer); ok {
-					if n, ok := p.Elem().(*types.Named); ok && n.Obj().Pkg() == x.pkg.Types {
+					if n, ok := p.Elem().(*types.Named); ok && (n.Obj().Pkg() == x.pkg.Types || (writes[v] && isProtoMessage(recv))) {
 						if _, isStruct := n.Underlying().(*types.Struct); isStruct && !isAnySync(sel.Type()) {
 							add(fmt.Sprintf("simrt.AccF(%q, func() unsafe.Pointer { return unsafe.Pointer(&%s) }, %v)", x.site(v.Pos()), x.text(v), writes[v]))
 						}
@@ -247,6 +297,10 @@ func (x *instr) accesses(stmt ast.Stmt) []string {
 			}
 		case *ast.Ident:
 			if obj, ok := info.Uses[v].(*types.Var); ok && obj.Parent() == x.pkg.Types.Scope() && !isAnySync(obj.Type()) {
+				add(fmt.Sprintf("simrt.Acc(%q, unsafe.Pointer(&%s), %v)", x.site(v.Pos()), v.Name, writes[v]))
+			} else if ok && x.captured(obj) && !isAnySync(obj.Type()) {
+				// a variable of the enclosing function shared by every invocation of the literal
+				// (a handler closure runs once per request)
 				add(fmt.Sprintf("simrt.Acc(%q, unsafe.Pointer(&%s), %v)", x.site(v.Pos()), v.Name, writes[v]))
 			}
 		}
@@ -296,7 +350,23 @@ func (x *instr) block(list []ast.Stmt) {
 
 func (x *instr) walk(f *ast.File) {
 	info := x.pkg.TypesInfo
+	var stack []ast.Node
+	innermostFunc := func() ast.Node {
+		for i := len(stack) - 1; i >= 0; i-- {
+			switch stack[i].(type) {
+			case *ast.FuncLit, *ast.FuncDecl:
+				return stack[i]
+			}
+		}
+		return nil
+	}
 	ast.Inspect(f, func(n ast.Node) bool {
+		if n == nil {
+			stack = stack[:len(stack)-1]
+			return true
+		}
+		stack = append(stack, n)
+		x.curFunc = innermostFunc()
 		switch v := n.(type) {
 		case *ast.FuncDecl:
 			// every function of the generated code starts with a pre-emption point: whatever a
